@@ -310,6 +310,12 @@ func (ex *Exec) doUnOp(fr *Frame, in *ssa.UnOp, pc Term, st State) State {
 		if ex.safety["nil"] && a.Local == nil {
 			ex.safetyObl(fr, "nil", in.Pos(), pc, not(eq(rootRef(a), tNull)), "nil dereference")
 		}
+		if gv, ok := in.X.(*ssa.Global); ok && ex.te.sortOf(in.Type()) == SIface {
+			if c, isConst := ex.initGlobalValue(gv); isConst {
+				fr.vals[in] = c
+				break
+			}
+		}
 		v := ex.load(st, pc, a, in.Type())
 		if a.Local != nil && len(a.Path) == 0 {
 			if cur, ok := st.m[a.Local.Key]; ok && cur.Clo != nil {
@@ -416,6 +422,10 @@ func (ex *Exec) binop(fr *Frame, in *ssa.BinOp, pc Term) Term {
 				r = eq(app(SInt, "itag", x), intLit(0))
 			case x.S == nilIface.S:
 				r = eq(app(SInt, "itag", y), intLit(0))
+			case ex.isFreshErrConst(x) || ex.isFreshErrConst(y):
+				// comparison with an error value made by errors.New at init (io.EOF): the dynamic
+				// value is a pointer, so the comparison is identity of type and pointer
+				r = eq(x, y)
 			default:
 				ex.unsupported("interface comparison")
 				r = ex.vc.fresh("ifaceeq", SBool)
@@ -861,4 +871,13 @@ func (ex *Exec) runDefers(fr *Frame, pc Term, st State) State {
 		st = ex.mergeStates([]inEdge{{cond: d.guard, st: nst}, {cond: not(d.guard), st: st}})
 	}
 	return st
+}
+
+func (ex *Exec) isFreshErrConst(t Term) bool {
+	for gv, c := range ex.initGlobals {
+		if c.S == t.S && ex.g.freshErr[gv] {
+			return true
+		}
+	}
+	return false
 }
